@@ -1733,7 +1733,7 @@ def check(run):
     # cases
     rng = run.rng
     n_pops = 480 if thorough else 96
-    n_queries = 60 if thorough else 28
+    n_queries = 60 if thorough else 24
     sizes = [0, 1, 2, 3, 5, 8, 13, 20, 30, 40]
     cases = []
     for i in range(n_pops):
